@@ -69,7 +69,8 @@ CONSTANTS Kind,       \* which container (see above); "graph" = no container, on
           NH,         \* element references script keeps (0..2)
           MaxOps,     \* operations per history
           Rich,       \* 1: larger argument sets
-          OpSet       \* {} = every operation, otherwise only the named ones (long histories over a core of operations)
+          OpSet,      \* {} = every operation, otherwise only the named ones (long histories over a core of operations)
+          Script      \* <<>> = any order, otherwise the k-th operation of a history is Script[k] (with every argument): directed long histories
 
 VARIABLES w, g, sh, r, c, o, nops, act
 vars == <<w, g, sh, r, c, o, nops, act>>
@@ -287,7 +288,13 @@ ASort(s, dir) ==
    ok |-> TRUE, res |-> "ok"]
 
 \* ---- actions --------------------------------------------------------------------------------------------------------
-On(x) == OpSet = {} \/ x \in OpSet
+\* (a configuration file cannot write a tuple: the scripts are named here and substituted with Script <- SA)
+SN == <<>>
+SA == <<"hold", "get", "len", "push", "push", "get", "push", "hsetF">>
+SB == <<"get", "hold", "len", "push", "get", "push", "push", "hsetF">>
+SC == <<"hold", "len", "push", "get", "len", "push", "push", "get">>
+SD == <<"hold", "get", "len", "len", "get", "push", "hsetF", "get">>
+On(x) == (OpSet = {} \/ x \in OpSet) /\ (Script = <<>> \/ (nops < Len(Script) /\ Script[nops + 1] = x))
 Commit(s, lbl) ==
   LET n == Norm(s) IN
   /\ nops < MaxOps /\ nops' = nops + 1 /\ act' = lbl
